@@ -326,7 +326,7 @@ func c31UHost(h []byte) *Case {
 func init() {
 	Register(&Prop{
 		ID: "C31",
-		Rule: "date: structured enumeration of 29-byte strings (every day 00..32 x month x boundary years x time-of-day boundaries, name case variants, every position mutated, " +
+		Rule: "date: structured enumeration of 29-byte strings (every day 00..32 x month x boundary years x time-of-day boundaries, 29 Feb of EVERY year 0000-9999 and month-length boundaries of every century year, name case variants, every position mutated, " +
 			"neighbouring lengths, time.Parse-only spellings); fmt: Unix seconds over years 1..9999 (boundaries, leap days, random) in several zones; " +
 			"ipv4: dotted strings with boundary octets, leading zeros, missing/extra/empty parts, foreign bytes; octet: digit strings; " +
 			"v6: all strings over {1 a : .} up to length 8 (quick) / 10 (thorough) in brackets, structured group lists with '::' at every position and IPv4 tails, zones, mutations; " +
@@ -378,6 +378,16 @@ func c31Gen(r *Rand, tier string, emit func(string, ...[]byte)) {
 					tod = tods[r.Intn(len(tods))]
 				}
 				emit("date", mk(wds[r.Intn(7)], fmt.Sprintf("%02d", d), mo, yy, tod))
+			}
+		}
+	}
+	// the leap-year rule, exhaustively: 29 Feb of every year 0000-9999, and 28/30 Feb + day 31 of the 30-day months for
+	// every century year
+	for y := 0; y <= 9999; y++ {
+		emit("date", mk(wds[y%7], "29", "Feb", fmt.Sprintf("%04d", y), tods[y%3]))
+		if y%100 == 0 {
+			for _, dm := range [][2]string{{"28", "Feb"}, {"30", "Feb"}, {"31", "Apr"}, {"31", "Jun"}, {"31", "Sep"}, {"31", "Nov"}, {"31", "Dec"}, {"01", "Mar"}} {
+				emit("date", mk(wds[y%7], dm[0], dm[1], fmt.Sprintf("%04d", y), tods[y%3]))
 			}
 		}
 	}
